@@ -1,12 +1,12 @@
 package main
 
 import (
+	"regexp"
 	"flag"
 	"fmt"
 	"os"
 	"runtime"
 	"runtime/debug"
-	"strings"
 	"sync"
 	"time"
 
@@ -257,8 +257,9 @@ func main() {
 	hs := w.harnesses("Verif" + *prop)
 	if *runPat != "" {
 		var f []*ssa.Function
+		re := regexp.MustCompile(*runPat)
 		for _, h := range hs {
-			if strings.Contains(h.Name(), *runPat) {
+			if re.MatchString(h.Name()) {
 				f = append(f, h)
 			}
 		}
